@@ -804,6 +804,29 @@ def check_r8(facts, rep, crate):
         rep.bad(rid, "hash-impl", "", "no Hash impl body for CowBytes found")
 
 
+def check_r9(facts, rep, crate):
+    rid = "C20.R9"
+    rep.rule(rid, "length observers of LongChain read the cached length: len()/remaining() return it, is_empty() is `cached length == 0`")
+    n = 0
+    for b in crate.bodies:
+        if "LongChain" not in b.path or "::tests::" in b.path or b.name not in ("is_empty", "len", "remaining"):
+            continue
+        tr = Tracer(facts, b)
+        n += 1
+        rep.analysed(b)
+        where = "%s (%s)" % (loc_str(b.loc), b.path)
+        r0 = strip(tr.local(0))
+        if b.name == "is_empty":
+            ok = r0.kind == "bin" and r0[1] == "Eq" and const_eval(r0[3]) == 0 and _is_len_load(strip(r0[2]))
+        else:
+            ok = _is_len_load(r0)
+        if ok:
+            rep.ok(rid, "%s" % b.path, where, "reads total_remaining_len")
+        else:
+            rep.bad(rid, "%s" % b.path, where, "%s() does not report the cached length (`%s`)" % (b.name, fmt(r0)[:60]))
+    rep.floor(rid, "length observers", n, 3)
+
+
 def check(facts, rep, tier, cfg):
     crate = facts.crate("cow_bytes")
     if crate is None:
@@ -817,3 +840,4 @@ def check(facts, rep, tier, cfg):
     check_r6(facts, rep, crate)
     check_r7(facts, rep, crate)
     check_r8(facts, rep, crate)
+    check_r9(facts, rep, crate)
